@@ -182,6 +182,7 @@ func runJob(j *scen.Job, tier string, boundOv, budgetOv int) *runOut {
 		return ro
 	}
 	vsched.MapOrderChoices = !j.NoMapOrd
+	scen.CurShard, scen.NShards = j.Shard, j.Shards
 	cfg := vsched.Config{MaxBound: b, Horizon: j.Horizon, Deadline: start.Add(time.Duration(bud) * time.Second)}
 	rep := vsched.Explore(cfg, j.Make)
 	ro.Bounds = rep.Bounds
@@ -281,6 +282,7 @@ func replayFile(file string) int {
 	}
 	runtime.GOMAXPROCS(1)
 	vsched.MapOrderChoices = !j.NoMapOrd
+	scen.CurShard, scen.NShards = j.Shard, j.Shards
 	r, vs := vsched.Replay(d.Choices, d.Sigs, j.Horizon, j.Make())
 	if r.ReplayErr != "" {
 		fmt.Println(r.ReplayErr)
